@@ -17,6 +17,10 @@ RULE = ("MC: exhaustive TLC runs of LiteClient (one action per critical section 
         "bound from the code's 3 s ping / 1 s retry constants; quiescence: every call returned, queries = {}, no delivery in "
         "progress, every connection Connected on an open socket, goroutine census equal to the model's). The harness separately "
         "asserts payload equality, return-by-deadline, later calls succeed, census before/after, and fails on any race report. "
+        "Fixed scenarios besides the TLC scripts: 16 callers with 48 KiB queries on ONE connection (hooked and hook-free; Connection.mu "
+        "must be exclusive between send.try and the result, the server reports a client stream it cannot decrypt), a refusal of every "
+        "connection attempt for > 10 s after a close followed by the server being back (a dial may fail only when the server closed that "
+        "attempt), a soak, and (thorough) the 10 s silence expiry; a call still inside Request after deadline + slack + 1 s is reported, not awaited. "
         "distinct = executions whose trace was accepted + hook-free executions that passed the harness assertions.")
 
 def _slack():
@@ -180,7 +184,7 @@ def finalize(ck, plan, vecs, next_id):
         # two thirds of the executions use a timeout well above the slack (otherwise "the answer was there in time" cannot be
         # told from scheduling noise); the rest use short ones
         long_to = 2 * SLACK_MS + 300
-        sc = {"id": sid, "plan": name, "ncalls": nc, "nconns": nk, "timeout_ms": long_to if sid % 3 else ck.rng.choice([250, 400]),
+        sc = {"id": sid, "plan": name, "ncalls": nc, "nconns": nk, "timeout_ms": long_to if sid % 3 and nc <= 8 else ck.rng.choice([250, 400]),
               "steps": out, "bg_callers": 0 if rnd < 0.6 else ck.rng.choice([1, 2, 4]), "bg_calls": ck.rng.choice([1, 2, 3]),
               "followup": 1, "mode": "traced", "jitter": ck.rng.random() < 0.7, "cls": "+".join(sorted(t)) or "plain"}
         if "late" in t and sid % 2 == 0:
@@ -197,7 +201,7 @@ class Exec:
         self.script, self.res, self.stderr, self.rc, self.trace, self.wall = script, res, stderr, rc, trace, wall
 
 
-def execute(ck, binary, script, tag, timeout=120):
+def execute(ck, binary, script, tag, timeout=300):
     d = os.path.join(ck.work, "ex")
     os.makedirs(d, exist_ok=True)
     sp = os.path.join(d, "%s_%d.script.ndjson" % (tag, script["id"]))
